@@ -48,7 +48,16 @@ pub fn guarded<T>(f: impl FnOnce() -> T) -> Result<T, String> {
 /// numbers inside the message so that "index 4 / len 4" and "index 9 / len 9"
 /// are the same class, but keep file:line.
 pub fn panic_class(p: &str) -> String {
-    let p = p.replace("/repo/", "");
+    // strip the checkout prefix (normally /repo/) so that classes do not depend on
+    // where the code under test lives
+    let mut p = p.replace("/repo/", "");
+    for krate in ["h263/src/", "deblock/src/", "yuv/src/"] {
+        if let Some(i) = p.find(krate) {
+            if i > 0 && p[..i].starts_with('/') {
+                p = p[i..].to_string();
+            }
+        }
+    }
     let (loc, msg) = match p.find(": ") {
         Some(i) => (&p[..i], &p[i + 2..]),
         None => (p.as_str(), ""),
